@@ -201,7 +201,7 @@ def run(ctx, out):
                 'arguments. Types with externally/adjacently tagged unions are outside the property. Non-trivial = non-leaf type.')
     items = []
     cases = convprop.run(ctx, out, PROP, monitor_factory(items), cfg={'overlap': True, 'weights': {'class': 3.0, 'enum': 1.2, 'seq': 2.0, 'std': 1.5, 'union': 2.5}},
-                         extra_cases=lambda rng: convprop.cases_from_pairs(gen.subclass_union_cases(rng), rng, 'subclass-union'))
+                         extra_cases=lambda rng: convprop.cases_from_pairs(gen.subclass_union_cases(rng), rng, 'subclass-union') + convprop.cases_from_pairs(gen.std_kind_cases(rng), rng, 'library-types'))
     # (b) native values
     n = 0
     for T, x, label in native_cases():
@@ -238,11 +238,11 @@ def run(ctx, out):
                 try:
                     y = type(x)(**kw)
                 except Exception as e:
-                    cause = cause_of(c.term, issues) or 'class'
+                    cause = cause_of(c.term, issues, x) or 'class'
                     out.violation(f'C06:ctor-rejects-typed-args:{cause}', f'{type(x).__name__}(**{kw!r}) raised {type(e).__name__}: {str(e)[:200]}', c.describe())
                     continue
                 if canon(y) != canon(x) and 'FNan' not in canon(x):
-                    cause = cause_of(c.term, issues) or 'class'
+                    cause = cause_of(c.term, issues, x) or 'class'
                     out.violation(f'C06:ctor-changes-typed-args:{cause}', f'{type(x).__name__}(**{kw!r}) = {y!r} != {x!r}', c.describe())
     out.evaluations += n
     out.extra['native_and_ctor_cases'] = n
